@@ -168,6 +168,9 @@ pub fn seed(name: &str) -> World {
             let rrb = l2b.create_sub_element(ElementName::Xref).unwrap().create_sub_element(ElementName::ReferrableRef).unwrap();
             rrb.set_attribute(AttributeName::Dest, EnumItem::CanCluster).unwrap();
             rrb.set_character_data("/a/a1/c").unwrap();
+            // two optional attributes, so that removing the first one is not removing the last entry
+            a.set_attribute(AttributeName::Uuid, "u0").unwrap();
+            a.set_attribute(AttributeName::S, "s0").unwrap();
             a.set_comment(Some("cmt".into()));
         }
         "twofile" => {
@@ -201,7 +204,11 @@ pub fn seed(name: &str) -> World {
             mk_ref(&fe, Some(&c), None, EnumItem::CanCluster);
             b.create_sub_element(ElementName::Elements).unwrap();
             // a named element below a parent that cannot be split over files: a file with another TIMING-RESOURCE here is rejected in the merge
-            els.create_named_sub_element(ElementName::SystemTiming, "t").unwrap().create_named_sub_element(ElementName::TimingResource, "r1").unwrap();
+            let t = els.create_named_sub_element(ElementName::SystemTiming, "t").unwrap();
+            let r1 = t.create_named_sub_element(ElementName::TimingResource, "r1").unwrap();
+            // t only in x; r1 is a named element that may be split, with a child that can be added to the other file on its own
+            r1.create_sub_element(ElementName::TimingArguments).unwrap();
+            t.remove_from_file(&fy).unwrap();
         }
         "mixedver" => {
             // two loaded files of different versions that share a package; the newer one holds an element kind that the
@@ -282,6 +289,8 @@ pub enum Op {
     RemoveFile(usize),
     AddToFile(usize, usize),
     AddToForeignFile(usize),
+    /// add_to_file with the handle of a file that was removed from the model
+    AddToRemovedFile(usize),
     RemoveFromForeignFile(usize),
     RemoveFromFile(usize, usize),
     SetFilename(usize, &'static str),
@@ -335,6 +344,7 @@ pub fn op_kind(op: &Op) -> &'static str {
         Op::RemoveFile(..) => "remove_file",
         Op::AddToFile(..) => "add_to_file",
         Op::AddToForeignFile(..) => "add_to_file(foreign)",
+        Op::AddToRemovedFile(..) => "add_to_file(removed file)",
         Op::RemoveFromForeignFile(..) => "remove_from_file(foreign)",
         Op::RemoveFromFile(..) => "remove_from_file",
         Op::SetFilename(..) => "set_filename",
@@ -613,6 +623,9 @@ pub fn ops_for(w: &World, profile: Profile) -> Vec<Op> {
             }
             if all || i % 3 == 0 {
                 ops.push(Op::AddToForeignFile(i));
+                if w.held_files.iter().any(|f| !files.contains(f)) {
+                    ops.push(Op::AddToRemovedFile(i));
+                }
                 ops.push(Op::RemoveFromForeignFile(i));
             }
         }
@@ -726,6 +739,7 @@ pub fn apply(w: &mut World, op: &Op) -> Outcome {
             }
             Op::AddToFile(i, k) => get(*i)?.add_to_file(files.get(*k)?).map(|_| None),
             Op::AddToForeignFile(i) => get(*i)?.add_to_file(&w.other.files().next()?).map(|_| None),
+            Op::AddToRemovedFile(i) => get(*i)?.add_to_file(w.held_files.iter().find(|f| !files.contains(f))?).map(|_| None),
             Op::RemoveFromForeignFile(i) => get(*i)?.remove_from_file(&w.other.files().next()?).map(|_| None),
             Op::RemoveFromFile(i, k) => get(*i)?.remove_from_file(files.get(*k)?).map(|_| None),
             Op::SetFilename(k, n) => files.get(*k)?.set_filename(n).map(|_| None),
